@@ -280,6 +280,8 @@ def playback_values(h, target_dir, extra, env, mem_kb, timeout_s):
         vals = []
         for vm in re.finditer(r"vec!\[([^\]]*)\]", m.group(1)):
             vals.append([int(x) for x in vm.group(1).split(",") if x.strip()])
+        if chk and chk.group(1) == "cover":
+            continue  # a satisfied cover is a witness, not a counterexample
         tests.append((chk.group(2) if chk else "?", vals))
     return tests
 
